@@ -639,7 +639,12 @@ func newJSONFromFastJSON(v *fastjson.Value, path JSONPath) JSON {
 		}
 		return newJSONArray(arr, path)
 	case fastjson.TypeNumber:
-		return newJSONNumber(v.GetFloat64(), path)
+		// see fastjsonFloat64: fastjson's own conversion can be 1 ulp off
+		f, err := fastjsonFloat64(v)
+		if err != nil {
+			f = v.GetFloat64()
+		}
+		return newJSONNumber(f, path)
 	case fastjson.TypeString:
 		return newJSONString(string(v.GetStringBytes()), path)
 	case fastjson.TypeTrue:
